@@ -78,3 +78,24 @@ Print Assumptions C03_scan_clean.
 
 Example C03_nonvacuous : valid 0 1 [0; 1/8; 1/2] /\ valid 0 1 [1/8; 3/8; 1] /\ valid 0 1 [].
 Proof. repeat split; try lra; valid_tac. Qed.
+
+(* ---- executed instance (Q, extracted to OCaml and run against /repo) = the real-number functions
+   the theorems above are about: kernel-checked parametricity bridge (Bridge.v).  qL = map Q2R etc. ---- *)
+From Coq Require Import QArith Qreals.
+From PS Require Import Bridge.
+Local Close Scope Q_scope.
+Theorem C03_exec_sync_kernel_transfer : forall (s1 s2 : list Q) (ts te mt mrts : Q), map q3 (sync_kernel QOps s1 s2 ts te mt mrts) = sync_kernel ROps (qL s1) (qL s2) (Q2R ts) (Q2R te) (Q2R mt) (Q2R mrts).
+Proof. exact sync_kernel_transfer. Qed.
+Print Assumptions C03_exec_sync_kernel_transfer.
+Theorem C03_exec_sync_kernel_cy_transfer : forall (s1 s2 : list Q) (ts te mt mrts : Q), map q3 (sync_kernel_cy QOps s1 s2 ts te mt mrts) = sync_kernel_cy ROps (qL s1) (qL s2) (Q2R ts) (Q2R te) (Q2R mt) (Q2R mrts).
+Proof. exact sync_kernel_cy_transfer. Qed.
+Print Assumptions C03_exec_sync_kernel_cy_transfer.
+Theorem C03_exec_single_kernel_transfer : forall (s1 s2 : list Q) (ts te mt mrts : Q), qL (single_kernel QOps s1 s2 ts te mt mrts) = single_kernel ROps (qL s1) (qL s2) (Q2R ts) (Q2R te) (Q2R mt) (Q2R mrts).
+Proof. exact single_kernel_transfer. Qed.
+Print Assumptions C03_exec_single_kernel_transfer.
+Theorem C03_exec_sync_spec_transfer : forall (s1 s2 : list Q) (ts te mt mrts : Q), map q3 (sync_spec QOps s1 s2 ts te mt mrts) = sync_spec ROps (qL s1) (qL s2) (Q2R ts) (Q2R te) (Q2R mt) (Q2R mrts).
+Proof. exact sync_spec_transfer. Qed.
+Print Assumptions C03_exec_sync_spec_transfer.
+Theorem C03_exec_single_spec_transfer : forall (s1 s2 : list Q) (ts te mt mrts : Q), qL (single_spec QOps s1 s2 ts te mt mrts) = single_spec ROps (qL s1) (qL s2) (Q2R ts) (Q2R te) (Q2R mt) (Q2R mrts).
+Proof. exact single_spec_transfer. Qed.
+Print Assumptions C03_exec_single_spec_transfer.
